@@ -283,6 +283,37 @@ def resolve_ite_free(t):
     return out
 
 
+def factor_ite(t):
+    """(A*B if c else A*B*C)  ->  A*B*(True if c else C): the factors two alternatives of a product share are pulled
+    out of the conditional (products over `*` / `&`)."""
+    if t.op != "ite":
+        return t
+
+    def fs(x):
+        if x.op == "bin" and x.a[0] in ("*", "&"):
+            return fs(x.a[1]) + fs(x.a[2])
+        return [x]
+
+    fa, fb = fs(t.a[1]), fs(t.a[2])
+    common = [x for x in fa if any(x is y for y in fb)]
+    if not common:
+        return t
+    ra = [x for x in fa if not any(x is y for y in common)]
+    rb = [x for x in fb if not any(x is y for y in common)]
+
+    def prod(xs):
+        if not xs:
+            return tm.const(True)
+        out = xs[0]
+        for x in xs[1:]:
+            out = tm.binop("*", out, x)
+        return out
+
+    rest = tm.ite(t.a[0], prod(ra), prod(rb))
+    out = prod(common)
+    return out if (not ra and not rb) else tm.binop("*", out, rest)
+
+
 def lift_ite(t):
     """F(ite(c, a, b)) -> ite(c, F(a), F(b)) when ``t`` contains exactly one conditional subterm (else ``t``)."""
     if t.op == "ite":
@@ -312,9 +343,27 @@ def kwargs_chain(t):
             rec(x.a[2], conds + [(x.a[0], False)])
         elif x.op in ("loop", "loopvar"):
             pass
+        elif x.op == "call" and call_name(x) == "builtins.dict" and len(x.a[1]) == 1:
+            # dict(kwargs, key=value, ...): a copy of the chain with the keywords stored last
+            rec(x.a[1][0], conds)
+            for k, v in x.a[2]:
+                if k != "**":
+                    out.append(("setitem", tm.const(k), v, tuple(conds)))
 
     rec(t, [])
     return out
+
+
+def _canon_cond(c):
+    """(condition in the orientation tm.ite uses, flipped?)"""
+    flip = False
+    while c.op == "un" and c.a[0] == "not":
+        c = c.a[1]
+        flip = not flip
+    if c.op == "cmp" and c.a[0] in ("isnot", "notin", "!="):
+        c = tm.cmp({"isnot": "is", "notin": "in", "!=": "=="}[c.a[0]], c.a[1], c.a[2])
+        flip = not flip
+    return c, flip
 
 
 def positive_term(den, pc, depth=0):
@@ -339,12 +388,17 @@ def positive_term(den, pc, depth=0):
     if den.op == "ite" and depth < 4:
         c, a, b = den.a
         for it in symeval.pc_either(pc):
-            if it[1] is c:
-                if positive_term(a, it[2], depth + 1) and positive_term(b, it[3], depth + 1):
+            c2, flip = _canon_cond(it[1])
+            if c2 is c:
+                ea, eb = (it[3], it[2]) if flip else (it[2], it[3])
+                if positive_term(a, ea, depth + 1) and positive_term(b, eb, depth + 1):
                     return True
         # the enclosing branch condition itself decides which alternative is live
         for cc, pol in symeval.pc_conds(pc):
-            if cc is c:
+            c2, flip = _canon_cond(cc)
+            if c2 is c:
+                if flip:
+                    pol = not pol
                 return positive_term(a if pol else b, pc, depth + 1)
     return False
 
